@@ -771,7 +771,7 @@ func (r *udpRelay) pump(in, out *net.UDPConn, to func() *net.UDPAddr, learn bool
 	}
 }
 
-func udpRelayCase(t *testing.T, id int, rep *vreport, rng *vrng, ci udpCipher, ds, ps int) {
+func udpRelayCase(t *testing.T, id int, rep *vreport, rng *vrng, ci udpCipher, ds, ps int, directed bool) {
 	block := ci.mk()
 	l, err := ListenWithOptions("127.0.0.1:0", block, ds, ps)
 	if err != nil {
@@ -785,6 +785,9 @@ func udpRelayCase(t *testing.T, id int, rep *vreport, rng *vrng, ci udpCipher, d
 	}
 	r := &udpRelay{front: mk(), back: mk(), target: l.conn.LocalAddr().(*net.UDPAddr), rng: newRng(rng.u64()),
 		drop: rng.pick(0, 5, 15, 30), dup: rng.pick(0, 10, 30), hold: rng.pick(0, 10, 25)}
+	if directed { // FEC repairs losses before the ARQ retransmits: moderate loss, no reordering
+		r.drop, r.dup, r.hold = 8, 0, 0
+	}
 	defer r.front.Close()
 	defer r.back.Close()
 	go r.pump(r.front, r.back, func() *net.UDPAddr { return r.target }, true)
@@ -847,6 +850,9 @@ func udpRelayCase(t *testing.T, id int, rep *vreport, rng *vrng, ci udpCipher, d
 		rep.violate("udp-relay-incomplete", fmt.Sprintf("case %d (%s, fec %d/%d, drop %d%% dup %d%% reorder %d%% for 1.5 s, then a clean path): only %d of %d bytes were delivered 23 s after the path healed", id, ci.name, ds, ps, r.drop, r.dup, r.hold, len(got), total), replay)
 	}
 	rep.Distribution[fmt.Sprintf("udp_relay_drop%d_dup%d_hold%d", r.drop, r.dup, r.hold)]++
+	if ds > 0 {
+		rep.Distribution["udp_relay_fec_recovered_total"] = int(atomic.LoadUint64(&DefaultSnmp.FECRecovered))
+	}
 	rep.Steps += int(r.n.Load())
 	rep.Cases++
 	if r.drop+r.dup+r.hold > 0 {
@@ -854,7 +860,121 @@ func udpRelayCase(t *testing.T, id int, rep *vreport, rng *vrng, ci udpCipher, d
 	}
 }
 
+// ---------------------------------------------------------------- out-of-band messages and conversations
+
+// Two conversations use ONE source address (two sessions on one socket - a restarted client that
+// kept its port, several NewConn sessions on one PacketConn, a NAT remapping): an out-of-band
+// message of conversation B must be delivered to B's handler or not at all, never to the handler
+// of the session of conversation A.
+func udpOOBCase(t *testing.T, id int, rep *vreport, rng *vrng, ci udpCipher, ds, ps int) {
+	block := ci.mk()
+	l, err := ListenWithOptions("127.0.0.1:0", block, ds, ps)
+	if err != nil {
+		t.Fatal(err)
+	}
+	defer l.Close()
+	conn, err := net.ListenUDP("udp4", &net.UDPAddr{IP: net.IPv4(127, 0, 0, 1)})
+	if err != nil {
+		t.Fatal(err)
+	}
+	defer conn.Close()
+	convA, convB := uint32(0x0A000000+rng.intn(1<<20)), uint32(0x0B000000+rng.intn(1<<20))
+	replay := map[string]any{"test": "TestVerifUDPOOB", "seed": vSeed(), "case": id, "cipher": ci.name, "ds": ds, "ps": ps, "convA": convA, "convB": convB}
+	a, _ := NewConn3(convA, l.conn.LocalAddr(), ci.mk(), ds, ps, conn)
+	defer a.Close()
+	a.Write([]byte("hello from A"))
+	l.SetReadDeadline(time.Now().Add(3 * time.Second))
+	sa, err := l.AcceptKCP()
+	if err != nil {
+		rep.violate("udp-oob-no-accept", fmt.Sprintf("case %d (%s): conversation A was not accepted", id, ci.name), replay)
+		return
+	}
+	defer sa.Close()
+	var mu sync.Mutex
+	var gotA [][]byte
+	sa.SetOOBHandler(func(b []byte) {
+		mu.Lock()
+		gotA = append(gotA, append([]byte(nil), b...))
+		mu.Unlock()
+	})
+	// A's own messages arrive intact (sizes 0 .. max)
+	max := a.GetOOBMaxSize()
+	var sentA [][]byte
+	for _, n := range []int{0, 1, 17, max / 2, max} {
+		m := append([]byte{0xAA}, rng.bytes(n)...)[:n]
+		if n > 0 {
+			m[0] = 0xAA
+		}
+		sentA = append(sentA, m)
+		a.SendOOB(m)
+		time.Sleep(2 * time.Millisecond)
+	}
+	time.Sleep(60 * time.Millisecond)
+	// conversation B on the same socket sends only out-of-band messages
+	b, _ := NewConn3(convB, l.conn.LocalAddr(), ci.mk(), ds, ps, conn)
+	defer b.Close()
+	var sentB [][]byte
+	for i := 0; i < 8; i++ {
+		m := append([]byte{0xBB, byte(i)}, rng.bytes(5+rng.intn(40))...)
+		sentB = append(sentB, m)
+		b.SendOOB(m)
+		time.Sleep(3 * time.Millisecond)
+	}
+	time.Sleep(80 * time.Millisecond)
+	mu.Lock()
+	defer mu.Unlock()
+	rep.Monitors["udp_oob_intact_or_absent"] += len(gotA)
+	for _, g := range gotA {
+		okA := false
+		for _, m := range sentA {
+			if bytes.Equal(g, m) {
+				okA = true
+			}
+		}
+		if okA {
+			continue
+		}
+		for _, m := range sentB {
+			if bytes.Equal(g, m) {
+				rep.violate("oob-misrouted", fmt.Sprintf("case %d (%s, fec %d/%d): an out-of-band message sent on conversation %#x was delivered to the handler of the session of conversation %#x (same remote address)", id, ci.name, ds, ps, convB, convA), replay)
+				okA = true
+				break
+			}
+		}
+		if !okA {
+			rep.violate("oob-corrupted", fmt.Sprintf("case %d (%s): the handler of conversation %#x received %d bytes that no conversation sent", id, ci.name, convA, len(g)), replay)
+		}
+	}
+	rep.Distribution["udp_oob_delivered_to_A"] += len(gotA)
+	rep.Cases++
+	if len(gotA) > 0 {
+		rep.Nontrivial++
+	}
+}
+
 // ---------------------------------------------------------------- tests
+
+func TestVerifUDPOOB(t *testing.T) {
+	rng := newRng(vSeed() ^ 0x0DD)
+	rep := newReport("UDP-oob")
+	rounds := 1
+	if vThorough() {
+		rounds = 4
+	}
+	id := 0
+	for r := 0; r < rounds; r++ {
+		for _, ci := range udpCiphers() {
+			for _, f := range [][2]int{{2, 1}, {3, 2}} {
+				udpOOBCase(t, id, rep, rng, ci, f[0], f[1])
+				id++
+			}
+		}
+	}
+	rep.write(t, "UDPoob.report.json")
+	for _, v := range rep.Violations {
+		t.Logf("violation %s: %s", v.Key, v.What)
+	}
+}
 
 func udpFecs(rng *vrng) [][2]int { return [][2]int{{0, 0}, {2, 1}, {3, 2}} }
 
@@ -932,9 +1052,19 @@ func TestVerifUDPRelay(t *testing.T) {
 	if vThorough() {
 		n = 24
 	}
-	for id := 0; id < n; id++ {
+	id := 0
+	// directed: every cipher class with a header in front of the FEC shard x FEC on x loss that
+	// parity can repair (the recovered packets take the FEC path into the core)
+	for _, ci := range cs {
+		if ci.name == "nil" {
+			continue
+		}
+		udpRelayCase(t, id, rep, rng, ci, 3, 2, true)
+		id++
+	}
+	for ; id < n+3; id++ {
 		f := udpFecs(rng)[rng.intn(3)]
-		udpRelayCase(t, id, rep, rng, cs[rng.intn(len(cs))], f[0], f[1])
+		udpRelayCase(t, id, rep, rng, cs[rng.intn(len(cs))], f[0], f[1], false)
 	}
 	rep.write(t, "UDPrelay.report.json")
 	for _, v := range rep.Violations {
